@@ -4,6 +4,7 @@ import (
 	"context"
 	"crypto"
 	"fmt"
+	"strings"
 
 	"github.com/fido-device-onboard/go-fdo/kex"
 	"github.com/fido-device-onboard/go-fdo/protocol"
@@ -20,6 +21,10 @@ type C09Plan struct {
 	Cipher string `json:"cipher"`
 	Reuse  bool   `json:"reuse"`
 	Bypass bool   `json:"bypass"`
+	// Pad > 0 lengthens one devmod string by Pad-1 bytes, so that over a sweep of
+	// sixteen values every plaintext length modulo the cipher block size occurs
+	// in the tunnel (size-dependent framing, padding).
+	Pad int `json:"pad,omitempty"`
 }
 
 type c09 struct {
@@ -45,6 +50,16 @@ func init() {
 			}
 		}
 	}
+	// every cipher suite with every message-length residue modulo 16
+	for ci, c := range CipherSpecs {
+		for pad := 1; pad <= 16; pad++ {
+			k, x := "P-256", "ECDH256"
+			if ci%2 == 1 {
+				k, x = "RSA2048RESTR", "DHKEXid14"
+			}
+			p.tuples = append(p.tuples, C09Plan{Key: k, Enc: 1, Kex: x, Cipher: c.Name, Pad: pad})
+		}
+	}
 	Register(p)
 }
 
@@ -52,7 +67,7 @@ func (p *c09) ID() string    { return "C09" }
 func (p *c09) Level() string { return "fault_enumeration" }
 func (p *c09) NewPlan() any  { return &C09Plan{} }
 func (p *c09) Rule() string {
-	return "plans enumerate the product key type x encoding x kex x cipher x reuse x rv-bypass (quick: every tuple once; thorough: every tuple under four different crypto random streams); a run is non-trivial when the tuple is valid and both TO2 rounds ran, or when it is forbidden and the refusal was observed; distinct = distinct tuples"
+	return "plans enumerate the product key type x encoding x kex x cipher x reuse x rv-bypass, plus every cipher suite with sixteen consecutive devmod lengths so that every tunnel plaintext length modulo 16 occurs (quick: every tuple once; thorough: every tuple under four different crypto random streams); a run is non-trivial when the tuple is valid and both TO2 rounds ran, or when it is forbidden and the refusal was observed; distinct = distinct tuples"
 }
 func (p *c09) Exhaustive(tier string) bool { return true }
 func (p *c09) Components() map[string][]string {
@@ -178,6 +193,11 @@ func (p *c09) Exec(env *Env, plan any) {
 		to1dArg = blob
 	}
 	opts := TO2Opts{Kex: kex.Suite(pl.Kex), Cipher: spec.ID, AllowReuse: pl.Reuse}
+	if pl.Pad > 0 {
+		dm := defaultDevmod
+		dm.Device += strings.Repeat("x", pl.Pad-1)
+		opts.Devmod = &dm
+	}
 	credBefore := append([]byte(nil), dev.CredBlob...)
 	jBefore := w.Journal.Len()
 	var reused bool
